@@ -8,6 +8,7 @@
 package main
 
 import (
+	"reflect"
 	"encoding/json"
 	"fmt"
 	"os"
@@ -87,7 +88,13 @@ func sameDirConflict(a, b dirmodel.Kind) bool {
 
 // check evaluates the oracle on one cache in one state. refreshErr is the error of the
 // Refresh that produced the state (nil pointer = not applicable: construction).
-func check(r *hx.Run, w *world, s *state, c *cdi.Cache, refreshed bool, refreshErr error, repairs []string) bool {
+func check(r *hx.Run, w *world, s *state, c *cdi.Cache, refreshed bool, refreshErr error, repairs []string) (held bool) {
+	defer func() {
+		if p := recover(); p != nil {
+			r.Fail(&hx.Failure{Sig: "panic-in-a-query", Msg: fmt.Sprintf("a query panicked (the caller had overwritten the slices and maps of earlier answers): %v", p), Case: s.caseOf(repairs), Rank: int64(len(s.list)*100 + len(s.tree.Key()))})
+			held = false
+		}
+	}()
 	want := dirmodel.Resolve(s.list, s.tree, w.abs)
 	obs := dirmodel.Observe(c)
 	rank := int64(len(s.list)*100 + len(s.tree.Key()))
@@ -119,6 +126,14 @@ func check(r *hx.Run, w *world, s *state, c *cdi.Cache, refreshed bool, refreshE
 	}
 	if ok, what, detail := obs.Check(want); !ok {
 		return fail("isolation:"+what, detail)
+	}
+	// the caller owns the slices and maps it was handed (Observe overwrote / cleared them): the
+	// report and the listings must not follow
+	if api, detail := dirmodel.AliasProbe(c); api != "" {
+		return fail("answer-follows-the-callers-modification:"+api, detail)
+	}
+	if again := dirmodel.Observe(c); !again.SameAnswers(obs) || !reflect.DeepEqual(again.ErrPaths, obs.ErrPaths) {
+		return fail("answers-change-after-the-caller-modified-earlier-answers", fmt.Sprintf("a second round of queries (nothing changed, no refresh) differs from the first after the caller overwrote the slices and maps it had been handed: error entries %v, before %v", again.ErrPaths, obs.ErrPaths))
 	}
 	// no stale / spurious file entries: every Spec-file path reported in error is an invalid file of the model
 	inv := map[string]bool{}
@@ -261,13 +276,17 @@ func main() {
 		for _, d := range s.list {
 			paths = append(paths, filepath.Join(w.root, d))
 		}
-		c, _ := cdi.NewCache(cdi.WithSpecDirs(paths...), cdi.WithAutoRefresh(false))
+		opt, reuse := dirmodel.Dirs(paths...)
+		c, _ := cdi.NewCache(opt, cdi.WithAutoRefresh(false))
+		reuse()
 		ok := check(r, w, s, c, false, nil, nil)
 		rerr := c.Refresh()
 		ok = check(r, w, s, c, true, rerr, nil) && ok
 		// the same population seen by a cache in automatic-refresh mode (the default), queried and
 		// explicitly refreshed: same isolation, same error report, same Refresh() verdict
-		ca, _ := cdi.NewCache(cdi.WithSpecDirs(paths...), cdi.WithAutoRefresh(true))
+		opt2, reuse2 := dirmodel.Dirs(paths...)
+		ca, _ := cdi.NewCache(opt2, cdi.WithAutoRefresh(true))
+		reuse2()
 		ok = check(r, w, s, ca, false, nil, nil) && ok
 		aerr := ca.Refresh()
 		ok = check(r, w, s, ca, true, aerr, nil) && ok
